@@ -178,7 +178,7 @@ func rulePitchBendEncoding(c *Ctx) {
 		return
 	}
 	c.Paths++
-	ev := decodeEvent(paths[0].Ret[0])
+	ev := decodeEvent(builtLiteral(paths[0], paths[0].Ret[0]))
 	if ev.Len != 3 {
 		c.Undec("R6.3", "midi.PitchBendEvent/encoding", pos, "not a 3-byte event")
 		return
@@ -926,6 +926,19 @@ func ruleShiftOnlyUnsigned(c *Ctx, dv *dev, rule string) {
 			case isMin(x.Y) && isConstF(x.X, 0):
 				return x.Op == token.GTR && !want || x.Op == token.LEQ && want
 			}
+		case *ssa.Parameter:
+			// a flag handed to a helper (zoneOf(value, canBeNegative)): what every caller passes
+			sites, all := staticCallSites(c.P, x.Parent())
+			idx := paramIndex(x)
+			if !all || len(sites) == 0 || idx < 0 {
+				return false
+			}
+			for _, cs := range sites {
+				if idx >= len(cs.Common().Args) || !implies(cs.Common().Args[idx], want, depth+1) {
+					return false
+				}
+			}
+			return true
 		case *ssa.Phi:
 			// every edge that can deliver the wanted value must imply it: by the value it delivers, by the branch the
 			// edge leaves, or by the conditions under which its source block runs at all (a && b built as a value)
